@@ -85,16 +85,44 @@ class Race(E1Check):
                 got[name] = r
                 env.log("lookup-", name)
 
+        adder_state: dict[str, Any] = {}
+
+        async def adder(ctx: Any) -> None:
+            # while the generation is in flight another task registers a static resource under one of the factory's types
+            if p.get("adder_gate"):
+                await env.gate("adder")
+            static_b = B()
+            try:
+                ctx.add_resource(static_b, types=B)
+                adder_state["static"] = static_b
+                env.log("adder-added")
+                adder_state["first_lookup"] = ctx.get_resource_nowait(B)
+            except Exception as e:  # noqa: BLE001 - (B, default) already taken by the generated object: legitimate
+                env.log("adder-conflict", type(e).__name__)
+
         async with Context() as ctx:
             ctx.add_resource_factory(afactory if p["async"] else sfactory, types=[A, B] if two else [A])
             async with anyio.create_task_group() as tg:
                 for i, (api, tsel, pre) in enumerate(p["tasks"]):
                     T = B if (tsel == "B" and two) else A
                     tg.start_soon(looker, f"t{i}", ctx, api, T, pre)
+                if p.get("adder"):
+                    tg.start_soon(adder, ctx)
             # afterwards: every API returns the same object
             later_a = ctx.get_resource_nowait(A) if not p["async"] else await ctx.get_resource(A)
             later_b = (await ctx.get_resource(B)) if two else None
         # oracle
+        if p.get("adder"):
+            if "static" in adder_state:
+                if adder_state.get("first_lookup") is not adder_state["static"]:
+                    env.fail("stable", "a lookup right after add_resource() did not return the resource just added")
+                if later_b is not adder_state["static"]:
+                    env.fail("stable", "(B, default) returned the static resource first and a different object after the factory's generation had completed")
+            if calls["n"] != 1:
+                env.fail("factory", f"factory ran {calls['n']} times for one context")
+            if any(o is not later_a for o in got.values() if isinstance(o, A) and not isinstance(o, B)) and not two:
+                env.fail("factory", "racing lookups returned different objects")
+            return
         if p["own_child"]:
             # t0 uses the parent context, the others each their own child: one product per context
             objs = list(got.values())
@@ -123,8 +151,21 @@ class _null:
 RACE = Race()
 
 
-def race_units(tier: str) -> list:
+def adder_units(tier: str) -> list:
     units = []
+    for api in APIS:
+        for pre in (False, True):
+            for ag in (False, True):
+                units.append({"race": {"async": True, "types": 2, "own_child": False, "adder": True, "adder_gate": ag,
+                                       "tasks": [[api, "A", pre]]}})
+                if tier == "thorough":
+                    units.append({"race": {"async": True, "types": 2, "own_child": False, "adder": True, "adder_gate": ag,
+                                           "tasks": [[api, "A", pre], ["method", "A", not pre]]}})
+    return units
+
+
+def race_units(tier: str) -> list:
+    units = adder_units(tier)
     ntasks = (2,) if tier == "quick" else (2, 3)
     for is_async in (True, False):
         for types in (1, 2):
